@@ -323,11 +323,13 @@ public:
          low.reDim(num());
          up.reDim(num());
          object.reDim(num());
+         scaleExp.reSize(num());
       }
 
       low[num() - 1] = *lowerValue;
       up[num() - 1] = *upperValue;
       object[num() - 1] = *objValue;
+      scaleExp[num() - 1] = 0;
    }
 
    ///
